@@ -128,7 +128,7 @@ theorem reqInv_move {cfg : Cfg} {K : Kind → Bool} {a b : Abs} (h : ReqInv cfg 
     · simp [pastNegotiation] at hc
     · exact h hr (.inr (.inl hc))
     · exact h hr (.inr (.inr hc))
-  case authOk _ _ => intro _ _; rfl
+  case authOk _ _ _ => intro _ _; rfl
   case reset _ =>
     intro _ hc
     rcases hc with hc | hc | hc
@@ -174,7 +174,7 @@ theorem saslQ_move {cfg : Cfg} {K : Kind → Bool} {a b : Abs} (h : SaslQ a) (m 
   case startMotd _ _ => exact ⟨h1, fun hc => by simp [isSaslState] at hc, h3, h4⟩
   case endMotd _ _ => exact ⟨h1, fun hc => by simp [isSaslState] at hc, h3, h4⟩
   case shutdown => exact ⟨h1, fun hc => by simp [isSaslState] at hc, h3, h4⟩
-  case authOk hs _ => exact ⟨h1, h2, h3, fun _ => h2 hs⟩
+  case authOk hs _ _ => exact ⟨h1, h2, h3, fun _ => h2 hs⟩
   case ackGain _ => exact ⟨fun _ => rfl, fun _ => rfl, fun _ _ _ => rfl, fun _ => rfl⟩
   case ackLose => exact ⟨fun hc => by simp at hc, h2, h3, h4⟩
   case reset _ =>
@@ -425,20 +425,22 @@ theorem acked_moves {cfg : Cfg} {K : Kind → Bool} (hK : K .ackPerm = false) {a
 
 /-! ### REQUEST_CAPABILITIES only ever gains `sasl` -/
 
-theorem wantedOk_move {cfg : Cfg} {K : Kind → Bool} {a b : Abs} (m : Move cfg K a b) : b.wantedOk = a.wantedOk := by
-  cases m <;> rfl
+theorem wantedOk_move {cfg : Cfg} {K : Kind → Bool} {a b : Abs} (m : Move cfg K a b) (h : a.wantedOk = true) :
+    b.wantedOk = true := by
+  cases m <;> first | exact h | rfl
 
-theorem wantedOk_moves {cfg : Cfg} {K : Kind → Bool} {a b : Abs} (m : Moves cfg K a b) : b.wantedOk = a.wantedOk := by
+theorem wantedOk_moves {cfg : Cfg} {K : Kind → Bool} {a b : Abs} (m : Moves cfg K a b) (h : a.wantedOk = true) :
+    b.wantedOk = true := by
   induction m with
-  | refl => rfl
-  | step _ m ih => exact (wantedOk_move m).trans ih
+  | refl => exact h
+  | step _ m ih => exact wantedOk_move m ih
 
 /-! ### only a handler with the `connPerm` permission (ERROR: closing link) opens a socket at once -/
 
 theorem sock_move {cfg : Cfg} {K : Kind → Bool} (hK : K .connPerm = false) {a b : Abs} (m : Move cfg K a b) :
     b.sock = a.sock := by
   cases m
-  case conn f h hp => rw [hK] at hp; cases hp
+  case conn f h hr hp hj hpol => rw [hK] at hp; cases hp
   all_goals rfl
 
 theorem sock_moves {cfg : Cfg} {K : Kind → Bool} (hK : K .connPerm = false) {a b : Abs} (m : Moves cfg K a b) :
@@ -452,7 +454,7 @@ theorem sock_moves {cfg : Cfg} {K : Kind → Bool} (hK : K .connPerm = false) {a
 theorem auth_move {cfg : Cfg} {K : Kind → Bool} {a b : Abs} (m : Move cfg K a b) (hb : b.saslAuth = true) :
     a.saslAuth = true ∨ (isSaslState a.fsm = true ∧ K .authPerm = true) := by
   cases m
-  case authOk h hp => exact .inr ⟨h, hp⟩
+  case authOk h _ hp => exact .inr ⟨h, hp⟩
   case reset _ => simp at hb
   all_goals exact .inl hb
 
@@ -491,5 +493,141 @@ theorem afterConnect_moves {cfg : Cfg} {K : Kind → Bool} (hd : cfg.realDriver 
   induction m with
   | refl => exact h
   | step _ m ih => exact afterConnect_move hd m ih
+
+/-! ### a 903 is honoured only after a complete response -/
+
+/-- `sasl_response_sent` is raised only by a handler that may send credentials -/
+theorem sent_move {cfg : Cfg} {K : Kind → Bool} (hK : K .payload = false) {a b : Abs} (m : Move cfg K a b)
+    (hb : b.sent = true) : a.sent = true := by
+  cases m
+  case respond _ hp => rw [hK] at hp; cases hp
+  case unsent => simp at hb
+  case reset _ => simp at hb
+  all_goals exact hb
+
+theorem sent_moves {cfg : Cfg} {K : Kind → Bool} (hK : K .payload = false) {a b : Abs} (m : Moves cfg K a b)
+    (hb : b.sent = true) : a.sent = true := by
+  induction m with
+  | refl => exact hb
+  | step _ m ih => exact ih (sent_move hK m hb)
+
+theorem authSent_move {cfg : Cfg} {K : Kind → Bool} {a b : Abs} (m : Move cfg K a b) (hb : b.saslAuth = true) :
+    a.saslAuth = true ∨ a.sent = true := by
+  cases m
+  case authOk _ hs _ => exact .inr hs
+  case reset _ => simp at hb
+  all_goals exact .inl hb
+
+/-- a handler that cannot send credentials raises `sasl_authenticated` only if a complete response had been
+sent before it started -/
+theorem authSent_moves {cfg : Cfg} {K : Kind → Bool} (hK : K .payload = false) {a b : Abs} (m : Moves cfg K a b)
+    (hb : b.saslAuth = true) : a.saslAuth = true ∨ a.sent = true := by
+  induction m with
+  | refl => exact .inl hb
+  | step m0 m ih =>
+    rcases authSent_move m hb with h | h
+    · exact ih h
+    · exact .inr (sent_moves hK m0 h)
+
+/-! ### JOINs: queued by Owner only after Irc.do376 completed or dropped the connection -/
+
+/-- a waiting JOIN on an open connection implies `afterConnect`; nothing but JOINs and driver events is
+ever counted as a side message, and none of them is on the fast queue -/
+def JoinInv (cfg : Cfg) (a : Abs) : Prop :=
+  (cfg.realDriver = true → a.joinQ = true → a.conn = true → a.afterConnect = true) ∧ Kind.side ∉ a.kinds
+
+theorem connectKinds_noSide (cfg : Cfg) : Kind.side ∉ connectKinds cfg := by
+  unfold connectKinds
+  by_cases h : cfg.password.isEmpty = true <;> simp [h]
+
+theorem joinInv_move {cfg : Cfg} {K : Kind → Bool} (hK : K .side = false) {a b : Abs} (h : JoinInv cfg a)
+    (m : Move cfg K a b) : JoinInv cfg b := by
+  obtain ⟨h1, h2⟩ := h
+  cases m
+  case emit k hk _ _ =>
+    refine ⟨h1, ?_⟩
+    simp only [List.mem_append, List.mem_singleton, not_or]
+    exact ⟨h2, fun he => by rw [← he, hK] at hk; cases hk⟩
+  case capEnd _ _ =>
+    refine ⟨h1, ?_⟩
+    simp only [List.mem_append, List.mem_singleton, not_or]
+    exact ⟨h2, by decide⟩
+  case setAfterConnect _ _ => exact ⟨fun _ _ _ => rfl, h2⟩
+  case joinQueue hq _ =>
+    refine ⟨fun hr _ hc => ?_, h2⟩
+    rcases hq with hq | hq | hq
+    · exact hq
+    · rw [hq] at hc; cases hc
+    · rw [hq] at hr; cases hr
+  case disc => exact ⟨fun _ _ hc => (by simp at hc), h2⟩
+  case reset _ => exact ⟨fun _ hq => (by simp at hq), connectKinds_noSide cfg⟩
+  case conn f hh hr hp hj hpol => exact ⟨fun _ hq => (by simp only at hq; rw [hj] at hq; cases hq), h2⟩
+  all_goals exact ⟨h1, h2⟩
+
+theorem joinInv_moves {cfg : Cfg} {K : Kind → Bool} (hK : K .side = false) {a b : Abs} (h : JoinInv cfg a)
+    (m : Moves cfg K a b) : JoinInv cfg b := by
+  induction m with
+  | refl => exact h
+  | step _ m ih => exact joinInv_move hK ih m
+
+/-- only a handler with the `joinPerm` permission (376 / 377 / 422) leaves a JOIN on the normal queue -/
+theorem noJoin_move {cfg : Cfg} {K : Kind → Bool} (hK : K .joinPerm = false) {a b : Abs} (m : Move cfg K a b)
+    (hb : b.joinQ = true) : a.joinQ = true := by
+  cases m
+  case joinQueue _ hp => rw [hK] at hp; cases hp
+  case reset _ => simp at hb
+  all_goals exact hb
+
+theorem noJoin_moves {cfg : Cfg} {K : Kind → Bool} (hK : K .joinPerm = false) {a b : Abs} (m : Moves cfg K a b)
+    (hb : b.joinQ = true) : a.joinQ = true := by
+  induction m with
+  | refl => exact hb
+  | step _ m ih => exact ih (noJoin_move hK m hb)
+
+/-! ### STS: no downgrade -/
+
+/-- while connected to a host for which a policy is stored, the connection is one the bot considers
+verified TLS (forced by the policy, or `ssl` with a certificate validation of the operator's own) -/
+def StsInv (cfg : Cfg) (a : Abs) : Prop :=
+  a.conn = true → (dictGet a.policies a.host).isSome = true → aSecure cfg a = true
+
+theorem dictGet_dictDel_some {β : Type} (d : List (Str × β)) (k h : Str) :
+    (dictGet (dictDel d k) h).isSome = true → (dictGet d h).isSome = true := by
+  induction d with
+  | nil => intro hc; exact hc
+  | cons p ps ih =>
+    obtain ⟨k', v'⟩ := p
+    unfold dictDel
+    by_cases hk : k' = k
+    · simp only [hk, List.filter_cons, bne_self_eq_false, Bool.false_eq_true, if_false]
+      intro hc
+      have := ih hc
+      unfold dictGet
+      by_cases hh : k = h
+      · simp [hh]
+      · simp only [hh, if_false]; exact this
+    · have hne : (k' != k) = true := by simpa using hk
+      simp only [List.filter_cons, hne, if_true]
+      unfold dictGet
+      by_cases hh : k' = h
+      · simp [hh]
+      · simp only [hh, if_false]; exact ih
+
+theorem stsInv_move {cfg : Cfg} {K : Kind → Bool} {a b : Abs} (h : StsInv cfg a) (m : Move cfg K a b) : StsInv cfg b := by
+  cases m
+  case store hs ps _ => exact fun _ _ => hs
+  case expire host => exact fun hc hp => h hc (dictGet_dictDel_some _ _ _ hp)
+  case disc => exact fun hc => by simp at hc
+  case conn f hh hr hp hj hpol =>
+    intro _ hp'
+    rcases hpol hp' with hf | hs
+    · simp [aSecure, hf]
+    · simp only [aSecure]; rw [hs]; simp
+  all_goals exact h
+
+theorem stsInv_moves {cfg : Cfg} {K : Kind → Bool} {a b : Abs} (h : StsInv cfg a) (m : Moves cfg K a b) : StsInv cfg b := by
+  induction m with
+  | refl => exact h
+  | step _ m ih => exact stsInv_move ih m
 
 end C08
